@@ -31,6 +31,8 @@ def main():
         subprocess.run(["git", "-C", "/repo", "checkout", "--", "."], check=True)
         # the generated tables in /verif were regenerated from the patched tree: bring them back to the unchanged tree, so
         # that a commit made now does not record a seeded table as the reference copy
+        # ... and the evidence files written by the runs against the patched tree are not evidence about the unchanged tree
+        subprocess.run(["git", "-C", VERIF, "checkout", "--", "evidence"])
         subprocess.run([sys.executable, os.path.join(VERIF, "tools", "gen_tables.py"), "/repo",
                         os.path.join(VERIF, "lean", "Svgbob", "Gen")], stdout=subprocess.DEVNULL)
     return 0
